@@ -18,9 +18,17 @@ CHECKS = {
  "C03": dict(level="model_checking", design_ref="DESIGN.md §4 C03",
    text="All-or-nothing and truthful-Result formulas over whole public calls (call/transition/return events) are invariants of the bounded model with every veto position, and are evaluated by TLC on each recorded call of the real machine (result, state and ticks before/after, queue tick).",
    technique="TLA+ spec + TLC; trace validation of call/return events"),
+ "C04": dict(level="model_checking", design_ref="DESIGN.md §4 C04", engine="queue",
+   text="spec/Queue.tla models N callers racing on the CAS of processQueue at hook-point granularity (append, enter, CAS won/lost, pop, run with nested handler mutations, loop exit, release, queue end, re-check); TLC checks Mutex, NoStranding, NoneLost, TickOrder, TickCount, NoNesting exhaustively for 2-4 callers and EventuallyProcessed under fairness. The same hook points are gates on the real machine: every schedule of 2 callers x 1 mutation is forced (stateless depth-first enumeration, thorough tier) and larger scenarios are sampled; each recorded gate sequence is validated by TLC against Queue.tla and the C04 formulas are evaluated on the logged end state (queue empty, every returned tick processed, WhenQueue closed whether accepted or canceled, tick order, no two handlers/evals at once); free-running 8-16 goroutine workloads are judged on their end state.",
+   note="Interleavings are enumerated at verif-hook granularity; the Go scheduler between two hook points is not enumerated. Trusted base: TLC, the gate scheduler of harness/gate, the verif hooks in processQueue/queueMutation.",
+   technique="TLA+ spec of the queue race + TLC; schedule enumeration forced on the real code through gate hooks; trace validation"),
  "C05": dict(level="model_checking", design_ref="DESIGN.md §4 C05",
    text="Handler phase order, After/Require order (acyclic demands), negotiation-sees-before / final-sees-after, veto-stops and finals-once-per-change are TLA+ formulas over the handler log; checked exhaustively on the bounded model (After relations included) and on the handler log recorded from generated handler maps bound to the real machine.",
    technique="TLA+ spec + TLC; trace validation of recorded handler logs"),
+ "C06": dict(level="model_checking", design_ref="DESIGN.md §4 C06", engine="subs",
+   text="spec/Subs.tla models the subscription manager's bookkeeping literally (States map, Matched/Total, Completed, shared-vs-copied clock, channel reuse, state-context index) with a transition split into setActiveStates and processSubscriptions; TLC checks ClosedIff (no lost, no spurious wake-up), StateCtxIff and NeverPanics exhaustively for every subscription kind, context cancellation point, Multi re-activation, canceled transition, SetSchema and Dispose. On the real machine a mutator is parked at the verif hooks tx.applied / pq.beforeSubs while a subscriber acts inside the window; all channels and contexts are probed after every operation and TLC judges every probe against a ghost that depends only on the logged machine history.",
+   note="WhenArgs is not modelled; 'a transition has run since' = an accepted transition was processed; inside the window a wake-up due at the end of the running transition is neither lost nor spurious. Trusted base: TLC, harness/gate, the probe (non-blocking receive on every channel).",
+   technique="TLA+ spec of the subscription bookkeeping + TLC; window-placed scenarios forced through gate hooks; trace validation with probes after every step"),
  "C07": dict(level="model_checking", design_ref="DESIGN.md §4 C07",
    text="Auto-follows / only-when-demanded / judged-individually formulas over consecutive transitions, including the partial-acceptance code paths transcribed step by step (slice aliasing included); exhaustive on the bounded model with every veto of the auto states' handlers, and evaluated on recorded real executions.",
    technique="TLA+ spec + TLC; trace validation"),
@@ -30,12 +38,18 @@ CHECKS = {
  "C11": dict(level="model_checking", design_ref="DESIGN.md §4 C11",
    text="The spec models map-order nondeterminism explicitly (auto-candidate order, topology DFS start order) behind flags; with the ordered variants TLC shows one behaviour per history. The binding re-executes every generated case >= 64 times on fresh machines and requires byte-identical recorded behaviour, and validates the reference executions against the ordered spec (auto order and topology are compared strictly).",
    technique="TLA+ spec with explicit map-order nondeterminism + TLC; repeated re-execution of the real code; trace validation"),
+ "C13": dict(level="model_checking", design_ref="DESIGN.md §4 C13", engine="dispose",
+   text="spec/Dispose.tla models any number of Dispose/DisposeForce/context attempts racing through the stages of doDispose (SingleWinner, DisposeHandlersOnce, AllWaitersReleased, Completes under fairness). On the real machine disposal is landed on an idle machine, a short and a long running queue, inside a negotiation handler, a final handler, Eval, and from inside a handler, by Dispose, DisposeForce, parent-context cancel, two Disposes and Dispose+DisposeForce, with and without handlers and with one outstanding waiter of every kind; the dd.* stage hooks are validated against the spec and the end state is judged: every waiter released, contexts cancelled, dispose handlers exactly once, handler loop exited, callers neither panicked nor blocked, ~75 later API calls return promptly with a neutral value.",
+   note="Landing points are reached by blocking handlers / timing, not by gates inside doDispose; DisposeForce is documented to cause panics in concurrent callers (not counted). Trusted base: TLC, the dd.* and hl.exit hooks.",
+   technique="TLA+ spec of the disposal stages + TLC; disposal scenarios on the real code; trace validation of stage hooks and end state"),
  "C14": dict(level="model_checking", design_ref="DESIGN.md §4 C14",
    text="Callback order per transition, no interleaving, time chain (before = previous after), after = actual machine time, canceled = no change, last report = final time are formulas over the recording tracer's log; invariants of the bounded model and evaluated on every recorded transition.",
    technique="TLA+ spec + TLC; trace validation of tracer callbacks"),
 }
 
-NOT_YET = {}
+NOT_YET = {
+ "C12": "data-race freedom in the sense of the Go memory model is not expressible at the abstraction a TLA+ specification of this system works at: deciding it needs the Go race detector (a different technique), and instrumenting every shared access so that a lock-set specification could be trace-validated would amount to re-implementing that detector. The interleaving-level consequences the specs can see (atomic snapshots stay parity-consistent under concurrent readers, one transition at a time, no lost wake-ups) are covered by C01, C04 and C06.",
+}
 
 def main():
     props = [json.loads(l)["id"] for l in open(os.path.join(ROOT, "properties.jsonl"))]
@@ -64,7 +78,10 @@ def main():
                    source_commits=[l.strip() for l in open(os.path.join(ROOT, "hooks_commits.txt")) if l.strip()]
                    if os.path.exists(os.path.join(ROOT, "hooks_commits.txt")) else [],
                    add_only=True),
-        engines=[dict(name="seq-machine", path="spec/Machine.tla spec/Faults.tla spec/Transition.tla spec/Resolver.tla spec/Props.tla spec/MCMachine.tla spec/TraceMachine.tla harness/seqdrv tools/seqcheck.py",
+        engines=[dict(name="queue", path="spec/Queue.tla spec/TraceQueue.tla harness/gate harness/queuedrv tools/queuecheck.py", serves_properties=["C04"], kind_free_text="TLA+ spec of the processQueue race; schedules forced on the real machine through verif gate hooks; trace validation"),
+                 dict(name="subs", path="spec/Subs.tla spec/MCSubs.tla spec/TraceSubs.tla harness/subsdrv tools/subscheck.py", serves_properties=["C06"], kind_free_text="TLA+ spec of the subscription manager; window-placed scenarios; trace validation with probes"),
+                 dict(name="dispose", path="spec/Dispose.tla spec/TraceDispose.tla harness/dispdrv tools/disposecheck.py", serves_properties=["C13"], kind_free_text="TLA+ spec of doDispose stages; disposal scenarios; trace validation"),
+                 dict(name="seq-machine", path="spec/Machine.tla spec/Faults.tla spec/Transition.tla spec/Resolver.tla spec/Props.tla spec/MCMachine.tla spec/TraceMachine.tla harness/seqdrv tools/seqcheck.py",
                       serves_properties=["C01", "C02", "C03", "C05", "C07", "C08", "C11", "C14"],
                       kind_free_text="TLA+ specification of the sequential machine checked by TLC; bound to the Go code by trace validation of recorded executions")],
         checks=checks,
